@@ -43,6 +43,7 @@ type Item struct {
 	Leaf   *Leaf
 	EOA    *common.Address
 	Value  int64
+	All    bool // plain send only: the frame's whole balance (SELFBALANCE) instead of Value
 	Bubble bool // revert this frame if the call failed
 }
 
@@ -139,7 +140,11 @@ func (f *Frame) Code() []byte {
 		if it.Child != nil {
 			gas = ChildGas >> uint(2*f.ID)
 		}
-		a.Call(kind, gas, to, big.NewInt(val), 0, inLen, 0, 0)
+		if it.All && it.EOA != nil {
+			a.PushU(0).PushU(0).PushU(0).PushU(0).Op(evmasm.SELFBALANCE).PushAddr(to).Op(evmasm.GAS).Op(evmasm.CALL)
+		} else {
+			a.Call(kind, gas, to, big.NewInt(val), 0, inLen, 0, 0)
+		}
 		// stack: success
 		a.Op(evmasm.DUP1).SStoreTop(uint64(SlotFlag + i))
 		if it.Bubble {
